@@ -358,6 +358,48 @@ func checkC16(c *Ctx, r *Report) {
 			r5.mustPass(fn, serve+": accepted request passes defer CompleteRequest(p) before any exit", q, len(acceptTrue))
 		}
 	}
+	// window trimming: every trim bound `x = x[k:]` in cleanup is the index of the FIRST
+	// live entry: the bound is not loop-carried past a match (the search leaves the loop)
+	if cl := r5.need("(*" + an2 + ".rateLimiter).cleanup"); cl != nil {
+		n := 0
+		allInstrs(cl, func(in ssa.Instruction) {
+			sl, ok := in.(*ssa.Slice)
+			if !ok || sl.Low == nil || sl.High != nil {
+				return
+			}
+			n++
+			p, ok := sl.Low.(*ssa.Phi)
+			if !ok {
+				r5.OK("cleanup: trim bound not computed by an index search loop", instrPos(in), 1, "bound: "+describeVal(sl.Low))
+				return
+			}
+			okFirst := true
+			var walk func(p *ssa.Phi, seen map[*ssa.Phi]bool)
+			walk = func(p *ssa.Phi, seen map[*ssa.Phi]bool) {
+				if seen[p] {
+					return
+				}
+				seen[p] = true
+				for _, e := range p.Edges {
+					if q, isPhi := e.(*ssa.Phi); isPhi {
+						walk(q, seen)
+						continue
+					}
+					if b, isB := e.(*ssa.BinOp); isB && b.Op == token.ADD {
+						if idx, isIdx := b.X.(*ssa.Phi); isIdx && idx.Comment == "rangeindex" && p.Block() == idx.Block() {
+							okFirst = false // the bound is carried around the loop: later matches overwrite it
+						}
+					}
+				}
+			}
+			walk(p, map[*ssa.Phi]bool{})
+			r5.Check(okFirst, "cleanup: trim bound is the first live index (search leaves the loop on a match)", instrPos(in), 1, "",
+				"the window keeps only what follows the LAST live entry: live requests are forgotten and the per-minute limit can be exceeded", "")
+		})
+		if n < 3 {
+			r5.Fail("cleanup: trim sites", cl.Pos(), "expected three window trims (global, per-peer, dial-data)", "")
+		}
+	}
 	lockRule(c, r5, lockSpec{
 		Pkg: an2, Type: "rateLimiter", Mutex: "mu",
 		Guarded:  []string{"closed", "reqs", "peerReqs", "dialDataReqs", "inProgressReqs"},
